@@ -684,7 +684,9 @@ def _targets():
         lambda rng: call('nth_count', g_ranked(rng, shared=False), g_seats(rng, 2), rng.randint(1, 3)))
     add('TransferableVoteSelector.next_count', lambda: vseq.TransferableVoteSelector(), _c_next_count)
     add('TransferableVoteDistributor.next_count', lambda: vseq.TransferableVoteDistributor(),
-        lambda rng: _c_next_count(rng, dist=True))
+        lambda rng, carried=None: _c_next_count(rng, dist=True, carried=carried), carried=True)
+    add('TransferableVoteDistributor:hare.next_count', lambda: vseq.TransferableVoteDistributor(transferer=vtrans.Hare(seed=3)),
+        lambda rng, carried=None: _c_next_count(rng, dist=True, carried=carried), seed=3, carried=True)
     add('PreferenceAddition', lambda: vseq.PreferenceAddition(), c_eval_ranked_n)
     add('PreferenceAddition:oklahoma', lambda: vseq.PreferenceAddition(lambda i: Fraction(1, i + 1)), c_eval_ranked_n)
     add('TidemanAlternative', lambda: vseq.TidemanAlternative(), c_eval_ranked_1)
@@ -702,9 +704,20 @@ def _targets():
     add('RandomUnrankedBallotSelector', lambda: vaux.RandomUnrankedBallotSelector(seed=7), c_eval_simple_sel, seed=7)
     add('RandomUnrankedBallotSelector:unseeded', lambda: vaux.RandomUnrankedBallotSelector(), c_eval_simple_sel, random=True)
     # --- transferers
-    add('Gregory', lambda: vtrans.Gregory(), _c_transfer)
-    add('Hare', lambda: vtrans.Hare(seed=9), _c_transfer, seed=9)
+    add('Gregory', lambda: vtrans.Gregory(), _c_transfer, carried=True)
+    add('Hare', lambda: vtrans.Hare(seed=9), _c_transfer, seed=9, carried=True)
     add('Hare:unseeded', lambda: vtrans.Hare(), _c_transfer, random=True)
+    add('Gregory.subtract', lambda: vtrans.Gregory(), _c_subtract, carried=True)
+    add('Hare.subtract', lambda: vtrans.Hare(seed=9), _c_subtract, seed=9, carried=True)
+    # the counting protocol driven by the caller, count by count: every next_count gets the allocation the previous one returned
+    add('stepped:TransferableVoteDistributor', lambda: _Stepper(vseq.TransferableVoteDistributor()), _c_stepped, carried=True,
+        cls=vseq.TransferableVoteDistributor)
+    add('stepped:TransferableVoteDistributor:hare', lambda: _Stepper(vseq.TransferableVoteDistributor(transferer=vtrans.Hare(seed=3))),
+        _c_stepped, seed=3, carried=True, cls=vseq.TransferableVoteDistributor)
+    add('stepped:TransferableVoteDistributor:default_transferer', lambda: _Stepper(vseq.TransferableVoteDistributor(vtrans.Gregory())),
+        _c_stepped, shared=lambda: _Stepper(vseq.TransferableVoteDistributor()), carried=True, cls=vseq.TransferableVoteDistributor)
+    add('TransferableVoteDistributor.nth_count', lambda: vseq.TransferableVoteDistributor(),
+        lambda rng: call('nth_count', _g_truncated(rng), g_seats(rng, 2), rng.randint(2, 4), **kw_prev_max(rng, {}, p=0.2)))
     # --- converters
     add('ApprovalToSimpleVotes', lambda: vconv.ApprovalToSimpleVotes(), c_conv(g_approval))
     add('ApprovalToSimpleVotes:split', lambda: vconv.ApprovalToSimpleVotes(split=True), c_conv(g_approval))
@@ -985,7 +998,9 @@ def _targets():
         add(f'singleton:condorcet.EVALUATORS[{key}]', (lambda p=pristine: copy.deepcopy(p)),
             c_eval_condorcet_n if accepts_n(obj) else c_eval_condorcet, shared=(lambda o=obj: o), singleton=True)
     add('singleton:sequential.DEFAULT_TRANSFERER', lambda: vtrans.Gregory(), _c_transfer,
-        shared=lambda: vseq.DEFAULT_TRANSFERER, singleton=True)
+        shared=lambda: vseq.DEFAULT_TRANSFERER, singleton=True, carried=True)
+    add('singleton:sequential.DEFAULT_TRANSFERER.subtract', lambda: vtrans.Gregory(), _c_subtract,
+        shared=lambda: vseq.DEFAULT_TRANSFERER, singleton=True, carried=True)
     add('singleton:sequential.RANKED_SUBSETTER', lambda: vconv.SubsettedVotes(vvote.RankedSubsetter()),
         lambda rng: call('convert', g_ranked(rng), g_selection(rng)), shared=lambda: vseq.RANKED_SUBSETTER, singleton=True)
     add('singleton:sequential.RANKED_TO_CONDORCET', lambda: vconv.RankedToCondorcetVotes(), c_conv(g_ranked),
@@ -1287,12 +1302,107 @@ def _g_allocation(rng):
     return cands, D(alloc)
 
 
-def _c_transfer(rng):
+def _g_carried(rng, weakest=False):
+    """An allocation as it stands AFTER one or more counts (the state a caller carries from count to count), not the one
+    `initial_allocation` makes: candidates eliminated earlier are gone from the keys but still named on ballots (also in first
+    place), their ballots lie on the pile of the first continuing preference, the exhausted pile (key None, at any position of
+    the dict) holds the ballots that ran out, piles may be empty, and the continuing candidate `weak` holds truncated ballots
+    that a further elimination exhausts as well.  `weakest`: `weak` has strictly the fewest votes (it is the one a further
+    count eliminates).  Returns (continuing, allocation, weak, totals per pile)."""
+    pool = CN[:rng.randint(3, 5)]
+    gone = rng.sample(pool, rng.randint(1, len(pool) - 2))
+    cont = [c for c in pool if c not in gone]
+    rng.shuffle(cont)
+    piles = {c: {} for c in cont}
+    piles[None] = {}
+
+    def put(owner, ballot, n):
+        key = json.dumps(ballot)
+        piles[owner][key] = (T(ballot), piles[owner].get(key, (None, 0))[1] + n)
+
+    for _ in range(rng.randint(3, 7)):
+        order = rng.sample(pool, rng.randint(1, len(pool)))
+        put(next((c for c in order if c in cont), None), order, rng.randint(1, 9))
+    if not piles[None] or rng.random() < 0.5:
+        put(None, rng.sample(gone, rng.randint(1, len(gone))), rng.randint(1, 4))
+    weak = rng.choice(cont)
+    lead = rng.sample(gone, rng.randint(0, len(gone)))
+    put(weak, (lead + [weak]) if rng.random() < 0.5 else ([weak] + lead), rng.randint(1, 3))
+    tot = {c: sum(n for _, n in p.values()) for c, p in piles.items()}
+    if weakest:
+        for c in cont:
+            if c != weak and tot[c] <= tot[weak]:
+                put(c, [c] + rng.sample([x for x in pool if x != c], rng.randint(0, 2)), tot[weak] - tot[c] + rng.randint(1, 3))
+        tot = {c: sum(n for _, n in p.values()) for c, p in piles.items()}
+    order = list(cont)
+    order.insert(rng.randint(0, len(order)), None)
+    return cont, D([(c, D(list(piles[c].values()))) for c in order]), weak, tot
+
+
+def _exhausts_more(alloc, removed):
+    """does removing `removed` put further ballots on the exhausted pile? (ballots without shared ranks)"""
+    left = [c for c, _ in alloc['D'] if c is not None and c not in removed]
+    for c, pile in alloc['D']:
+        if c in removed:
+            for b, _ in pile['D']:
+                names = b['T']
+                if c not in names or not any(x in left for x in names[names.index(c) + 1:]):
+                    return True
+    return False
+
+
+CARRIED_P = 0.5        # share of the direct transfer / next_count calls that get an allocation carried over from earlier counts
+
+
+def _c_transfer(rng, carried=None):
+    if carried or (carried is None and rng.random() < CARRIED_P):
+        cont, alloc, weak, _ = _g_carried(rng)
+        rem = rng.sample(cont, rng.randint(1, max(1, len(cont) - 1)))
+        if weak not in rem and rng.random() < 0.8:
+            rem[0] = weak
+        c = call('transfer', alloc, L(rem))
+        c['_carried'] = ['carried:transfer'] + (['carried_exhausts_more'] if _exhausts_more(alloc, rem) else [])
+        return c
     cands, alloc = _g_allocation(rng)
     return call('transfer', alloc, L(rng.sample(cands, rng.randint(1, max(1, len(cands) - 1)))))
 
 
-def _c_next_count(rng, dist=False):
+def _c_subtract(rng, carried=None):
+    """VoteTransferer.subtract called directly: quotas of one or two elected candidates taken off their piles"""
+    if carried or (carried is None and rng.random() < 0.7):
+        cont, alloc, _, tot = _g_carried(rng)
+        tags = ['carried:subtract']
+    else:
+        cont, alloc = _g_allocation(rng)
+        tot = {c: sum(n for _, n in p['D']) for c, p in alloc['D']}
+        tags = []
+    el = [c for c in rng.sample(cont, rng.randint(1, min(2, len(cont)))) if tot[c] > 0] or [max(cont, key=lambda c: tot[c])]
+    quotas = D([(c, rng.choice([rng.randint(1, max(1, tot[c])), F(Fraction(max(1, tot[c]) * 2, 3)), tot[c] + 1])) for c in el])
+    c = call('subtract', alloc, quotas if rng.random() < 0.9 else D([]))
+    if tags:
+        c['_carried'] = tags
+    return c
+
+
+def _c_next_count(rng, dist=False, carried=None):
+    if carried or (carried is None and rng.random() < CARRIED_P):
+        weakest = carried == 'weakest' or rng.random() < 0.6
+        cont, alloc, weak, tot = _g_carried(rng, weakest=weakest)
+        total = sum(tot.values())
+        tags = ['carried:next_count']
+        k = {}
+        seats = g_seats(rng, 2)
+        if weakest:       # nobody reaches the quota (one seat, quota above every pile): the count eliminates `weak`
+            seats = 1
+            total = max(total, 2 * max(tot[c] for c in cont))
+            if _exhausts_more(alloc, [weak]):
+                tags.append('carried_exhausts_more')
+        elif dist:
+            k = kw_prev_max(rng, {}, p=0.3)
+        c = call('next_count', alloc, seats, total, **k) if dist or rng.random() < 0.5 else \
+            call('next_count', alloc, seats, total, elected=L([]))
+        c['_carried'] = tags
+        return c
     cands, alloc = _g_allocation(rng)
     total = sum(n for _, d in alloc['D'] for _, n in d['D'])
     a = [alloc, g_seats(rng, 2), total]
@@ -1301,6 +1411,69 @@ def _c_next_count(rng, dist=False):
     if rng.random() < 0.5:
         return call('next_count', *a)
     return call('next_count', *a, elected=L([]))
+
+
+def _g_truncated(rng):
+    """ranked votes whose count runs over several eliminations with ballots running out on the way: weak candidates with
+    truncated ballots (exhausted when they are eliminated) next to longer ballots"""
+    cands = CN[:rng.randint(3, 5)]
+    votes = {json.dumps(k): (k, v) for k, v in g_ranked(rng, cands, shared=rng.random() < 0.2, nb=rng.randint(2, 4))['D']}
+    for c in rng.sample(cands, rng.randint(2, len(cands) - 1)):
+        b = T([c] + ([] if rng.random() < 0.7 else rng.sample([x for x in cands if x != c], 1)))
+        votes.setdefault(json.dumps(b), (b, rng.randint(1, 3)))
+    out = list(votes.values())
+    rng.shuffle(out)
+    return D(out)
+
+
+def _c_stepped(rng, carried=None):
+    c = call('counts', _g_truncated(rng), g_seats(rng, 2), rng.randint(2, 5), **kw_prev_max(rng, {}, p=0.15))
+    c['_carried'] = ['carried:stepped']
+    return c
+
+
+_STEP_MUT = []          # argument mutations seen by a `_Stepper` inside one call (drained by `_invoke`)
+_STEP_SITES = set()     # what the stepped counts of one call reached
+
+
+class _Stepper:
+    """The caller's side of the counting protocol of sequential.py L147-241 (what `nth_count` does, written by a caller):
+    `initial_allocation`, then `next_count` count by count, each count getting the allocation OBJECT the count before
+    returned.  The allocation handed in is snapshotted deeply before and after every count, the result at once, and every
+    count is asked for a second time with the same objects; the outcome is the trail of all results."""
+    def __init__(self, dist):
+        self.dist = dist
+
+    def counts(self, votes, n_seats, k, prev_gains=None, max_seats=None):
+        import votelib.evaluate.sequential as vseq
+        alloc = vseq.initial_allocation(votes, self.dist.transferer)
+        total = sum(votes.values())
+        seats = dict(prev_gains or {})
+        kw = {} if max_seats is None else {'max_seats': max_seats}
+        trail = []
+        for i in range(k):
+            if sum(seats.values()) >= n_seats:
+                break
+            before = enc(alloc, ordered=True)
+            had = None in alloc
+            new, elected = self.dist.next_count(alloc, n_seats, total, prev_gains=dict(seats), **kw)
+            first = enc([new, elected], ordered=True)
+            again = enc(list(self.dist.next_count(alloc, n_seats, total, prev_gains=dict(seats), **kw)), ordered=True)
+            after = enc(alloc, ordered=True)
+            trail.append({'count': i + 1, 'result': first, 'asked_again': 'same' if again == first else again})
+            if after != before:
+                _STEP_MUT.append({'before': [f'allocation handed to count {i + 1}', before],
+                                  'after': [f'allocation handed to count {i + 1}', after]})
+            if had:
+                _STEP_SITES.add('carried_exhausted_pile_given')
+                if isinstance(new, dict) and sum(new.get(None, {}).values()) > sum(alloc[None].values()):
+                    _STEP_SITES.add('carried_exhausts_more')
+            if not new or (not elected and new == alloc):
+                break
+            for c, n in elected.items():
+                seats[c] = seats.get(c, 0) + n
+            alloc = new
+        return trail
 
 
 def _c_validate_score(rng):
@@ -1326,7 +1499,7 @@ def _c_nominate(rng):
 
 _TARGETS = None
 _BASE_DEFAULTS = None
-CHECKED_METHODS = ('evaluate', 'convert', 'validate', 'calculate', 'next_count', 'nth_count', 'subset', 'transfer',
+CHECKED_METHODS = ('evaluate', 'convert', 'validate', 'calculate', 'next_count', 'nth_count', 'subset', 'transfer', 'subtract',
                    '_elect_by_quota', '_subtract_overaward')
 
 
@@ -1576,12 +1749,19 @@ def _invoke(t, obj, c, perturb=None, mode=None, reuse=None, keep=None):
     before = enc([args, kw], ordered=True)
     if perturb is not None:
         _perturb(perturb)
+    del _STEP_MUT[:]
+    _STEP_SITES.clear()
     with RngTrace() as tr:
         out = outcome(lambda: getattr(obj, c['m'])(*args, **kw))
     after = enc([args, kw], ordered=True)
     mut = None
     if before != after:
         mut = {'before': before, 'after': after}
+    elif _STEP_MUT:         # an allocation carried from count to count by a `_Stepper` was changed by the count it was handed to
+        mut = dict(_STEP_MUT[0])
+    tr.sites.update(_STEP_SITES)
+    del _STEP_MUT[:]
+    _STEP_SITES.clear()
     return out, mut, tr
 
 
@@ -1941,7 +2121,9 @@ REQUIRED_COUNTERS = ['every_class', 'singleton', 'pav_cache_grows', 'pav_small_a
                      'stv_dist_quota_partial_caps', 'stv_dist_quota_none_caps', 'stv_dist_quota:noquota', 'stv_dist_quota:droopname',
                      'stv_dist_quota:harecallable', 'stv_dist_quota:constant', 'foreign_first:other_parameters', 'hash_alike', 'hash_alike:mersenne', 'hash_alike:neg', 'hash_alike:key_order', 'hash_alike:numtype', 'module_function',
                      'ctor_param_nondefault', 'names:int0', 'names:empty0', 'names:person', 'shared_rank3', 'zero_votes2',
-                     'name_clash', 'prev_absent_party'] + ['num:' + m for m in NUM_MODES] + ['foreign_first:' + w for w in
+                     'name_clash', 'prev_absent_party', 'carried_allocation', 'carried:transfer', 'carried:subtract',
+                     'carried:next_count', 'carried:stepped', 'carried_exhausted_pile_given', 'carried_exhausts_more',
+                     'carried_same_objects_twice'] + ['num:' + m for m in NUM_MODES] + ['foreign_first:' + w for w in
                                                                                 ('TieBreaking', 'PostConverted', 'PreConverted', 'FixedSeatCount')]
 
 
@@ -1972,6 +2154,12 @@ def _tag_calls(TG, targets, calls, tags):
                 tags.append(f"nested_depth{t['nested_depth']}_prev_gains")
         if isinstance(c.get('same_as'), int):
             tags.append('same_argument_objects')
+        if c.get('_carried'):
+            tags += ['carried_allocation'] + list(c['_carried'])
+            if any(x == 'carried:transfer' or x == 'carried:next_count' or x == 'carried:subtract' for x in c['_carried']):
+                tags.append('carried_exhausted_pile_given')
+            if isinstance(c.get('same_as'), int):
+                tags.append('carried_same_objects_twice')
         if t.get('stv_grid') and c.get('_stv'):
             tags.append(f"stv_dist_{'no_quota' if t['stv_grid'] == 'noquota' else 'quota'}_{c['_stv']}_caps")
             tags.append('stv_dist_quota:' + t['stv_grid'])
@@ -2100,6 +2288,16 @@ def generate(rng, tier):
             calls = [c0, dict(json.loads(json.dumps(c0)), same_as=0), dict(TG[name]['gen'](rng), t=0),
                      dict(json.loads(json.dumps(c0)), same_as=0)]
             yield _mk([name], calls, _tag_calls(TG, [name], calls, ['nested_directed']))
+    # (5d6) allocations carried over from earlier counts (exhausted pile present, a further elimination exhausting more
+    # ballots), handed to transfer / subtract / next_count directly and to the stepped counting protocol; the SAME allocation
+    # object handed in twice, another allocation in between
+    for name in [n for n in names if TG[n].get('carried')]:
+        for j in range(4 if tier == 'quick' else 40):
+            g = TG[name]['gen']
+            c0 = dict(g(rng, carried='weakest' if j % 2 else True), t=0)
+            calls = [c0, dict(json.loads(json.dumps(c0)), same_as=0), dict(g(rng, carried=True), t=0),
+                     dict(json.loads(json.dumps(c0)), same_as=0)]
+            yield _mk([name], calls, _tag_calls(TG, [name], calls, ['carried_directed']))
     # the same for a sample of all other targets: one argument object, two calls
     for name in rng.sample(names, 60 if tier == 'quick' else len(names)):
         c0 = dict(TG[name]['gen'](rng), t=0)
@@ -2586,7 +2784,11 @@ RULE = ('call sequences of length 2-6 (profiles of 2-5 candidates, 1-5 ballot ty
         'Fractions, seat counts 1-6, flat and nested prev_gains / max_seats given or omitted) on one shared instance vs fresh '
         'instances of every public evaluator / converter / validator / subsetter / transferer class (about 150 configurations) '
         'and of the module-level singletons; pools of 2-3 different objects interleaved in one history (all random components '
-        'sharing the global RNG; singletons next to the evaluators that use them). Non-trivial = at least two calls and at least '
+        'sharing the global RNG; singletons next to the evaluators that use them). STV allocations handed to transfer / subtract / '
+        'next_count directly are, half of the time, allocations carried over from earlier counts (exhausted pile None present, '
+        'eliminated candidates still on ballots, truncated ballots that a further elimination exhausts, the same allocation '
+        'object handed in twice) and the counting protocol is also stepped count by count on the allocation objects the library '
+        'returned (`stepped:` targets). Non-trivial = at least two calls and at least '
         'one call that returns a result; distinct by canonical request.')
 
 
